@@ -485,6 +485,13 @@ def targeted(rng, base, tier):
                 for row in cell:
                     row[0] = -abs(row[0]) - 1000.0
     add('power-negative', negpow, ['PowerProfile'], badpow)
+    # a negative requested core power turns every (valid) profile negative
+    add('total-power-negative',
+        lambda c, t, r: c.__setitem__('total_power', -2.0e4),
+        ['PowerProfile'], badpow)
+    add('power-scaling-negative',
+        lambda c, t, r: c.__setitem__('power_scaling_factor', -0.5),
+        ['PowerProfile'], badpow)
     add('power-z-inverted',
         lambda c, t, r: [p.__setitem__('z', p['z'][::-1])
                          for p in c['power'].values()],
